@@ -339,17 +339,18 @@ def drive(ctx, th, scs):
 
 
 def confirm(ctx, binp, sc, prop, tmp):
-    """Timing dependent verdicts (promptness, parked waiter) must reproduce in 2 of 3 runs of the same scenario."""
+    """Timing dependent verdicts (promptness, parked waiter) must reproduce in both of two further runs of the same scenario,
+    run one after the other (a starved machine makes such a verdict once in a while; a defect makes it every time)."""
     d = tempfile.mkdtemp(prefix='confirm-', dir=tmp)
     sf = os.path.join(d, 'scen.ndjson')
     vlib.write_ndjson(sf, [dict(sc, id='%s-r%d' % (sc['id'], n)) for n in range(2)])
     sub = vlib.Ctx(ctx.pid, ctx.tier, ctx.seed, ctx.level)
-    rep = sub.run_driver(binp, ['-mode', 'scen', '-scen', sf, '-tracedir', d], timeout=600)
+    rep = sub.run_driver(binp, ['-mode', 'scen', '-scen', sf, '-tracedir', d, '-par', '1'], timeout=600)
     if rep is None:
         return False
     index = json.load(open(os.path.join(d, 'lock-index.json')))
     verdicts, _ = validate(sub, os.path.join(d, 'lock-traces.ndjson'), index)
-    return sum(1 for props in verdicts.values() if prop in props) >= 1
+    return sum(1 for props in verdicts.values() if prop in props) >= 2
 
 
 def run(ctx):
